@@ -16,6 +16,7 @@ CONSTANTS
   DsHist = 0
   DsOps = {}
   NMon = 0
+  Neg = TRUE
   Shape = "any"
 INVARIANT TypeOK
 INVARIANT InComp
